@@ -90,7 +90,7 @@ var extraRules = map[string][]string{
 	"non200-is-error":            {"C02", "C04"},
 	"carrier-pairing":            {"C02"},
 	"holder-fresh":               {"C13"},
-	"bounded-read":               {"C01", "C03", "C07", "C08"},
+	"bounded-read":               {"C01", "C03", "C04", "C07", "C08"},
 	"limit-wiring":               {"C01", "C02", "C07", "C15", "C19"},
 	"timeout-arith":              {"C07", "C05"},
 	"typed-nil":                  {"C02", "C06", "C07", "C16", "C19"},
@@ -140,7 +140,7 @@ var extraRules = map[string][]string{
 	"ctx-classified-before-coding":      {"C15", "C06"},
 	"receive-error-looked-at-first":     {"C02", "C06"},
 	"trailers-only-iff-nothing-written": {"C05", "C11"},
-	"unexpected-eof-never-clean":        {"C04"},
+	"unexpected-eof-never-clean":        {"C04", "C07"},
 	"append-to-presized":                {"C02", "C19"},
 	"close-error-param-kept":            {"C02", "C19"},
 	"no-dynamic-format":                 {"C02", "C18"},
@@ -152,19 +152,26 @@ var extraRules = map[string][]string{
 	"gen-declared-locals-used":          {"C17"},
 	"gen-package-names-service-scoped":  {"C17"},
 	// round-6 rules and sharing
-	"coded-read-error-kept":         {"C04", "C06", "C15"},
-	"unary-encoding-header-decided": {"C01", "C05", "C08"},
-	"gen-index-result-checked":      {"C17"},
-	"validate-response-exits":       {"C01", "C04", "C05", "C06", "C11"},
-	"pool-nil-guarded":              {"C06", "C07"},
-	"handler-headers-before-close":  {"C05", "C07"},
-	"negotiate-args-from-headers":   {"C08"},
-	"send-does-not-record":          {"C02", "C14"},
-	"conn-spec-verbatim":            {"C12"},
-	"handler-impl-error-passed":     {"C02", "C19"},
-	"transport-error-passthrough":   {"C04", "C06"},
-	"defaults-before-options":       {"C08", "C16"},
-	"close-read-drains":             {"C13"},
+	"coded-read-error-kept":        {"C04", "C06", "C15"},
+	"body-read-failure-classified": {"C15", "C06"},
+	// round-8 rules and sharing
+	"timeout-header-from-deadline-only": {"C10"},
+	"closed-pipe-is-eof":                {"C15", "C14"},
+	"newchain-keeps-elements-whole":     {"C16"},
+	"status-message-wins":               {"C02"},
+	"decompress-writes-through-limit":   {"C09", "C08"},
+	"unary-encoding-header-decided":     {"C01", "C05", "C08"},
+	"gen-index-result-checked":          {"C17"},
+	"validate-response-exits":           {"C01", "C04", "C05", "C06", "C11"},
+	"pool-nil-guarded":                  {"C06", "C07"},
+	"handler-headers-before-close":      {"C05", "C07"},
+	"negotiate-args-from-headers":       {"C08"},
+	"send-does-not-record":              {"C02", "C14"},
+	"conn-spec-verbatim":                {"C12"},
+	"handler-impl-error-passed":         {"C02", "C19"},
+	"transport-error-passthrough":       {"C04", "C06"},
+	"defaults-before-options":           {"C08", "C16"},
+	"close-read-drains":                 {"C13"},
 }
 
 func init() {
